@@ -349,6 +349,10 @@ def gen(tier, seed):
     for d in (0, 1, 59, 127, 359):
         for m in (0, 30, 59):
             yield {'deg': d, 'min': m, 'secs': [0, 30], 'depth': 2, 'numpy': True}
+    # (5b) DMS objects whose seconds are within a few ulps of 60 (with minutes 59 and otherwise), injected as DMS / DDM objects
+    for d in (0, 10, 59, 179, 359):
+        for m in (0, 58, 59):
+            yield {'deg': d, 'min': m, 'secs': 'near60', 'depth': 3, 'only': ['dms', 'ddm']}
     # (6) DMS / DDM objects reached by other constructions (fields assigned, formatted strings incl. exponent notation)
     for d in (0, 1, 59, 144, 359, 719):
         for m in (0, 30, 59):
@@ -364,6 +368,14 @@ def seconds_of(case):
             for f in FRAC:
                 out.append(F(s) + f)
         return out
+    if case['secs'] == 'near60':
+        # seconds a few units in the last place below 60 (and minutes 59): minute + second / 60 rounds to exactly 60.0
+        out, x = [], 60.0
+        for k in range(1, 70):
+            x = math.nextafter(x, 0.0)
+            if k in (1, 2, 8, 16, 30, 31, 32, 33, 64, 69):
+                out.append(F(x))
+        return out + [F(60) - F(1, 10 ** 12), F(60) - F(1, 10 ** 9)]
     if case['secs'] == 'tiny':
         return [F(0), F(30), F(59), F(36, 10 ** 9), F(1, 10 ** 5), F(30) + F(1, 10 ** 7), F(599999, 10 ** 4)]
     return [F(s) for s in case['secs']]
@@ -376,6 +388,8 @@ def ev(case, rec):
             if sign < 0 and d == 0 and m == 0 and s == 0:
                 continue
             for notation, raw in inject(sign, d, m, s, bool(case.get('numpy')), bool(case.get('objforms'))):
+                if case.get('only') and notation not in case['only']:
+                    continue
                 rec._case = {'deg': d, 'min': m, 'sec': float(s), 'sign': sign, 'notation': notation, 'depth': depth,
                              'secs': [float(s)], 'numpy': bool(case.get('numpy')), 'objforms': bool(case.get('objforms')),
                              'form': form_of(raw)}
